@@ -1,4 +1,5 @@
 import DeriveExModel.Props.C14
+import DeriveExModel.Props.C08
 /-
 C16 — expansion is total and deterministic (model level).
 
@@ -36,5 +37,110 @@ theorem core_error_single : coreSegs (.error ()) = [{ label := "err", body := .e
 /-- determinism: the expansion is a function of (entry point, arguments, item) -/
 theorem deterministic (args args' : Args) (item item' : Item) (h1 : args = args') (h2 : item = item') :
     expandAttr args item = expandAttr args' item' := by subst h1; subst h2; rfl
+
+/-! ### every accepted entry produces something
+
+An entry that is accepted never silently produces nothing: its impl family has at least one item (and for the operators
+exactly one per documented form, `Props/C08.lean`), so every listed trait is answered either by items or by a
+`compile_error!`. -/
+
+theorem cmp_render_nonempty (c : CmpImpl) : c.render ≠ [] := by
+  unfold CmpImpl.render
+  cases c.op <;> simp
+
+theorem ops_render_nonempty (kind : Kind) (s : ItemStruct) (e : Entry) (fields : List FieldE)
+    (hk : (opForms kind) ≠ []) : (buildOps kind s e fields).render ≠ [] := by
+  intro h
+  have := ops_one_impl_per_form kind s e fields
+  rw [h] at this
+  simp at this
+  exact hk (List.eq_nil_of_length_eq_zero this.symm)
+
+theorem opForms_nonempty_of_op (kind : Kind) (h : (∃ o, kind = .bin o) ∨ (∃ o, kind = .assign o) ∨ (∃ o, kind = .un o)) :
+    opForms kind ≠ [] := by
+  rcases h with ⟨o, rfl⟩ | ⟨o, rfl⟩ | ⟨o, rfl⟩ <;> simp [opForms]
+
+theorem struct_entry_nonempty (s : ItemStruct) (h : HAttrs) (fields : List FieldE) (e : Entry) (g : GenImpl)
+    (hb : buildStructEntry s h fields e = .ok g) : g.render ≠ [] := by
+  unfold buildStructEntry at hb
+  split at hb
+  · simp only [pure, Except.pure, Except.ok.injEq] at hb
+    subst hb
+    exact ops_render_nonempty _ s e fields (opForms_nonempty_of_op _ (Or.inl ⟨_, by assumption⟩))
+  · simp only [pure, Except.pure, Except.ok.injEq] at hb
+    subst hb
+    exact ops_render_nonempty _ s e fields (opForms_nonempty_of_op _ (Or.inr (Or.inl ⟨_, by assumption⟩)))
+  · simp only [pure, Except.pure, Except.ok.injEq] at hb
+    subst hb
+    exact ops_render_nonempty _ s e fields (opForms_nonempty_of_op _ (Or.inr (Or.inr ⟨_, by assumption⟩)))
+  · simp only [bind, Except.bind, pure, Except.pure] at hb
+    split at hb
+    · simp at hb
+    · simp only [Except.ok.injEq] at hb
+      subst hb
+      exact cmp_render_nonempty _
+  all_goals
+    first
+    | (simp only [pure, Except.pure, Except.ok.injEq] at hb; subst hb; simp [GenImpl.render])
+    | (simp only [bind, Except.bind, pure, Except.pure] at hb
+       split at hb
+       · simp at hb
+       · simp only [Except.ok.injEq] at hb
+         subst hb
+         simp [GenImpl.render])
+
+theorem enum_entry_nonempty (en : ItemEnum) (h : HAttrs) (variants : List VariantE) (e : Entry) (r : R GenImpl) (g : GenImpl)
+    (hs : buildEnumEntry en h variants e = some r) (hb : r = .ok g) : g.render ≠ [] := by
+  subst hb
+  unfold buildEnumEntry at hs
+  split at hs
+  · simp only [Option.some.injEq, bind, Except.bind, pure, Except.pure] at hs
+    split at hs
+    · simp at hs
+    · simp only [Except.ok.injEq] at hs
+      subst hs
+      exact cmp_render_nonempty _
+  · simp only [Option.some.injEq, pure, Except.pure, Except.ok.injEq] at hs
+    subst hs
+    simp [GenImpl.render]
+  · simp only [Option.some.injEq, pure, Except.pure, Except.ok.injEq] at hs
+    subst hs
+    simp [GenImpl.render]
+  · simp only [Option.some.injEq, bind, Except.bind, pure, Except.pure] at hs
+    split at hs
+    · simp at hs
+    · simp only [Except.ok.injEq] at hs
+      subst hs
+      simp [GenImpl.render]
+  · simp only [Option.some.injEq, bind, Except.bind, pure, Except.pure] at hs
+    split at hs
+    · simp at hs
+    · simp only [Except.ok.injEq] at hs
+      subst hs
+      simp [GenImpl.render]
+  · simp at hs
+
+/-- every entry is answered by at least one segment: items, one `compile_error!`, or one dump -/
+theorem entry_answered (i : Nat) (e : Entry) (o : EntryOut) (ho : ∀ g, o = .ok g → g.render ≠ []) :
+    entrySegs i e o ≠ [] := by
+  cases o with
+  | ok g =>
+    have := ho g rfl
+    simp only [entrySegs]
+    intro h
+    simp at h
+    exact this h
+  | dump g => simp [entrySegs]
+  | err => simp [entrySegs]
+
+/-- the derive entry point never re-emits anything but impls and errors for structs and enums: its output is `coreSegs` -/
+theorem derive_is_core_struct (s : ItemStruct) : expandDerive (.struct_ s) = coreSegs (structCore none s).result := rfl
+theorem derive_is_core_enum (e : ItemEnum) : expandDerive (.enum_ e) = coreSegs (enumCore none e).result := rfl
+
+/-- the attribute entry point: the item, then exactly what the derive entry point yields for the same (merged) list -/
+theorem attr_is_item_then_core_struct (a : Args) (s : ItemStruct) :
+    (expandAttr a (.struct_ s)).tail = coreSegs (structCore (some a) s).result := rfl
+theorem attr_is_item_then_core_enum (a : Args) (e : ItemEnum) :
+    (expandAttr a (.enum_ e)).tail = coreSegs (enumCore (some a) e).result := rfl
 
 end DX
